@@ -105,7 +105,9 @@ class InternalAsyncioAdapter(InternalRunAdapter, SnapshottableAdapter):
         self._queues.publish_queue.put_nowait(event)
 
     async def get_now(self) -> float:
-        return time.monotonic()
+        # Seconds since the epoch, as the adapter contract requires: the control
+        # loop subtracts these values from step failure times (time.time()).
+        return time.time()
 
     async def send_event(self, tick: WorkflowTick) -> None:
         self._queues.receive_queue.put_nowait(tick)
